@@ -6,6 +6,7 @@ package main
 // integers) — floating-point rounding of the real VM is outside the claim.
 
 import (
+	"github.com/yuin/gopher-lua/pm"
 	"math"
 	"fmt"
 	"math/big"
@@ -1036,13 +1037,30 @@ func (li *luaInterp) builtin(name string, args []LVal) []LVal {
 		if b, ok := arg(3).(LBoolV); ok && b.t == tTrue {
 			plain = true
 		}
-		if !plain {
-			if pat.op != "c" || strings.ContainsAny(pat.s, "^$()%.[]*+-?") {
-				li.ex.unsupported("lua string.find with a pattern")
-			}
-		}
 		if c, ok := init.constInt(); !ok || c != 1 {
 			li.ex.unsupported("lua string.find with init != 1")
+		}
+		if !plain {
+			if pat.op != "c" {
+				li.ex.unsupported("lua string.find with a symbolic pattern")
+			}
+			if strings.ContainsAny(pat.s, "^$()%.[]*+-?") {
+				// a real Lua pattern: decided by gopher-lua's own matcher when the subject is concrete
+				if s.op != "c" {
+					li.ex.unsupported("lua string.find with a pattern on a symbolic subject")
+				}
+				mds, err := pm.Find(pat.s, []byte(s.s), 0, 1)
+				if err != nil {
+					li.ex.unsupported("lua string.find: malformed pattern: " + err.Error())
+				}
+				if len(mds) == 0 {
+					return []LVal{LNilV{}}
+				}
+				if mds[0].CaptureLength() > 2 {
+					li.ex.unsupported("lua string.find with captures")
+				}
+				return []LVal{LNumV{mkInt(int64(mds[0].Capture(0) + 1))}, LNumV{mkInt(int64(mds[0].Capture(1)))}}
+			}
 		}
 		idx := mkIndexOf(s, pat, mkInt(0))
 		if li.ex.branch(mkLt(idx, mkInt(0))) {
